@@ -3562,9 +3562,11 @@ Hgetntinfo(const int32 numbertype, hdf_ntinfo_t *nt_info)
 int
 hi_close_stdio(FILE **f)
 {
-    if (EOF == fclose(*f))
-        return FAIL;
+    int ret = (EOF == fclose(*f)) ? FAIL : SUCCEED;
+
+    /* the stream is disassociated whether or not fclose reports an error;
+       never let a caller close (or use) it again */
     *f = NULL;
-    return SUCCEED;
+    return ret;
 }
 #endif
